@@ -252,7 +252,14 @@ class ErrorTree(object):
         some subclass of `LookupError`.
         """
 
-        if self._instance is not _unset and index not in self:
+        # The instance recorded here may be a property *name*: the errors
+        # of ``propertyNames`` are about a name but sit at the path of the
+        # object. A string has no members to vouch for, so it is not asked.
+        if (
+            self._instance is not _unset and
+            not isinstance(self._instance, str) and
+            index not in self
+        ):
             self._instance[index]
         return self._contents[index]
 
